@@ -285,6 +285,8 @@ class SplitRun:
         flist = []
         if not isinstance(fields, AList):
             self.mismatch("content", f"entry fields is {fields!r}, not a list", None)
+        if fields.tag == "sorted?" and len(fields.items) > 1:
+            self.mismatch("content", "the entry's field list was re-ordered by a sort on its (text-dependent) keys: fields must stay in source order", None)
         for f in fields.items:
             if not isinstance(f, AObj):
                 self.mismatch("content", f"entry field is {f!r}", None)
